@@ -11,8 +11,13 @@ Props/C10.v that mention it stop compiling):
     operands, materialised path), masked_array, __array__, __init__ (lsb from packing.least_significant_bit_set);
   * ScaledArrayView: _apply_scale, _remove_scale, _is_multi_element, __array__/scaled_array, max/min (two routes),
     __getitem__ (branch list), which comparison operators it overrides.
+
+All shape tests compare NORMAL FORMS of function bodies (see `norm` below: docstrings, single-return helper methods of
+the same class inlined, elif/else after a returning branch flattened to early returns, once-bound-once-read temporaries
+inlined, locals renamed, `if not c` branch order), so behaviour-preserving rewrites regenerate the same text.
 """
 import ast
+import copy
 
 import py2v
 from py2v import Untranslatable
@@ -69,6 +74,327 @@ def body_of(fn):
     return b
 
 
+# ---------------------------------------------------------------------------------------------------------------------
+# Normal form of a function body.  Every shape test below compares NORMAL FORMS (of the source and of the template), so
+# that behaviour-preserving rewrites of the source give the same generated text.  Each step is semantics preserving by
+# itself (so a semantic change of the source can never be normalised away), anything else is left as it is and then
+# fails the comparison (fail closed):
+#   1. docstrings, annotations of assignments are dropped;
+#   2. a call `self.h(a, ..)` of a method h of the same class whose body is a single `return <expr>` is replaced by that
+#      expression (plain positional parameters, simple arguments, h not one of the methods the plugin reads by itself,
+#      h not defined by any other class of the module);
+#   3. `not (a in b)` = `a not in b`, `not (a is b)` = `a is not b`; `if not c: A else: B` = `if c: B else: A`;
+#   4. `if c: ..return/raise  else: E` = `if c: ..return/raise` followed by E (elif chains and nested else blocks become
+#      early returns);
+#   5. `if c: ..; x = F` directly followed by `return x` = `if c: ..; return F` followed by `return x`;
+#      a final `if not c: return A` `return B` = `if c: return B` `return A`;
+#   6. a local bound exactly once to an expression and read exactly once, unconditionally, by the head expression of the
+#      very next statement is replaced by the expression (only if nothing with an effect is evaluated in between);
+#   7. the remaining locals are renamed _l0, _l1, .. in order of their first binding.
+PURE_CALLS = {"isinstance", "int", "len", "np.ndim", "self._is_multi_element", "self.masked_array"}
+OWN_METHODS = {"_is_multi_element", "_apply_scale", "_remove_scale", "masked_array", "scaled_array", "_do_comparison",
+               "__array__", "__getitem__", "__setitem__", "__init__", "max", "min"}
+NESTED_SCOPES = (ast.FunctionDef, ast.AsyncFunctionDef, ast.Lambda, ast.ListComp, ast.SetComp, ast.DictComp,
+                 ast.GeneratorExp, ast.ClassDef, ast.Global, ast.Nonlocal, ast.NamedExpr, ast.Yield, ast.YieldFrom, ast.Await)
+
+
+def _has_nested_scope(nodes):
+    return any(isinstance(x, NESTED_SCOPES) for n in nodes for x in ast.walk(n))
+
+
+def _simple_arg(e):
+    """a name, a constant, or attribute/constant-subscript chains of them: evaluating it twice or later is harmless"""
+    while isinstance(e, (ast.Attribute, ast.Subscript)):
+        if isinstance(e, ast.Subscript) and not isinstance(e.slice, ast.Constant):
+            return False
+        e = e.value
+    return isinstance(e, (ast.Name, ast.Constant))
+
+
+class _Subst(ast.NodeTransformer):
+    def __init__(self, mapping):
+        self.mapping = mapping
+
+    def visit_Name(self, node):
+        if node.id in self.mapping:
+            if not isinstance(node.ctx, ast.Load):
+                raise Untranslatable(f"helper assigns its parameter {node.id}")
+            return copy.deepcopy(self.mapping[node.id])
+        return node
+
+
+def _binds(cls, name):
+    for n in cls.body:
+        if isinstance(n, (ast.FunctionDef, ast.AsyncFunctionDef, ast.ClassDef)) and n.name == name:
+            return True
+        if isinstance(n, (ast.Assign, ast.AnnAssign, ast.AugAssign)) and any(
+                isinstance(x, ast.Name) and x.id == name for x in ast.walk(n)):
+            return True
+    return False
+
+
+class _InlineHelpers(ast.NodeTransformer):
+    def __init__(self, cls, mod, depth=0):
+        self.cls, self.mod, self.depth = cls, mod, depth
+
+    def visit_Call(self, node):
+        self.generic_visit(node)
+        f = node.func
+        if not (isinstance(f, ast.Attribute) and isinstance(f.value, ast.Name) and f.value.id == "self"
+                and f.attr not in OWN_METHODS and not (f.attr.startswith("__") and f.attr.endswith("__"))):
+            return node
+        found = [n for n in self.cls.body if isinstance(n, ast.FunctionDef) and n.name == f.attr]
+        if len(found) != 1 or found[0].decorator_list:
+            return node
+        if self.mod is not None:
+            for c in ast.walk(self.mod):
+                if isinstance(c, ast.ClassDef) and c is not self.cls and _binds(c, f.attr):
+                    return node          # another class has something of that name: dispatch is not obvious
+        h = found[0]
+        a = h.args
+        if a.posonlyargs or a.vararg or a.kwarg or a.kwonlyargs or a.defaults or a.kw_defaults:
+            return node
+        params = [x.arg for x in a.args]
+        hb = body_of(h)
+        if (not params or params[0] != "self" or len(params) - 1 != len(node.args) or node.keywords
+                or len(hb) != 1 or not isinstance(hb[0], ast.Return) or hb[0].value is None
+                or _has_nested_scope(hb) or self.depth > 3):
+            return node
+        if not all(_simple_arg(x) for x in node.args):
+            return node
+        mapping = dict(zip(params[1:], node.args))
+        expr = _Subst(mapping).visit(copy.deepcopy(hb[0].value))
+        return _InlineHelpers(self.cls, self.mod, self.depth + 1).visit(expr)
+
+
+NEGATABLE = {ast.In: ast.NotIn, ast.NotIn: ast.In, ast.Is: ast.IsNot, ast.IsNot: ast.Is}
+
+
+class _Cleanup(ast.NodeTransformer):
+    def visit_AnnAssign(self, node):
+        self.generic_visit(node)
+        if node.value is None:
+            return None
+        return ast.Assign(targets=[node.target], value=node.value)
+
+    def visit_UnaryOp(self, node):
+        self.generic_visit(node)
+        o = node.operand
+        if isinstance(node.op, ast.Not) and isinstance(o, ast.Compare) and len(o.ops) == 1 and type(o.ops[0]) in NEGATABLE:
+            return ast.Compare(left=o.left, ops=[NEGATABLE[type(o.ops[0])]()], comparators=o.comparators)
+        return node
+
+
+def _terminates(block):
+    if not block:
+        return False
+    last = block[-1]
+    if isinstance(last, (ast.Return, ast.Raise)):
+        return True
+    return isinstance(last, ast.If) and _terminates(last.body) and _terminates(last.orelse)
+
+
+def _is_not(e):
+    return isinstance(e, ast.UnaryOp) and isinstance(e.op, ast.Not)
+
+
+def _flatten(block, tail_returns=True):
+    """steps 3 (branch order), 4 and 5 on a statement list (recursively)"""
+    out = []
+    todo = list(block)
+    while todo:
+        s = todo.pop(0)
+        if isinstance(s, ast.If):
+            if _is_not(s.test) and s.body and s.orelse:
+                s = ast.If(test=s.test.operand, body=s.orelse, orelse=s.body)
+            if s.orelse and _terminates(s.body):
+                todo = list(s.orelse) + todo
+                s = ast.If(test=s.test, body=s.body, orelse=[])
+            elif s.orelse and _terminates(s.orelse):
+                # `if c: A else: ..return` = `if not c: ..return` followed by A
+                neg = s.test.operand if _is_not(s.test) else ast.UnaryOp(op=ast.Not(), operand=s.test)
+                todo = list(s.body) + todo
+                s = ast.If(test=_Cleanup().visit(neg), body=s.orelse, orelse=[])
+            s = ast.If(test=s.test, body=_flatten(s.body), orelse=_flatten(s.orelse))
+            # 5a: `if c: ..; x = F` `return x`
+            if (not s.orelse and todo and isinstance(todo[0], ast.Return) and isinstance(todo[0].value, ast.Name)
+                    and s.body and isinstance(s.body[-1], ast.Assign) and len(s.body[-1].targets) == 1
+                    and isinstance(s.body[-1].targets[0], ast.Name) and s.body[-1].targets[0].id == todo[0].value.id):
+                s = ast.If(test=s.test, body=s.body[:-1] + [ast.Return(value=s.body[-1].value)], orelse=[])
+            # 5b: final `if not c: return A` `return B`
+            if (not s.orelse and len(todo) == 1 and isinstance(todo[0], ast.Return) and _is_not(s.test)
+                    and len(s.body) == 1 and isinstance(s.body[0], ast.Return)):
+                s, todo = ast.If(test=s.test.operand, body=[todo[0]], orelse=[]), [s.body[0]]
+            out.append(s)
+        elif isinstance(s, (ast.For, ast.While)):
+            s = copy.copy(s)
+            s.body, s.orelse = _flatten(s.body), _flatten(s.orelse)
+            out.append(s)
+        elif isinstance(s, ast.With):
+            s = copy.copy(s)
+            s.body = _flatten(s.body)
+            out.append(s)
+        elif isinstance(s, ast.Try):
+            s = copy.copy(s)
+            s.body, s.orelse, s.finalbody = _flatten(s.body), _flatten(s.orelse), _flatten(s.finalbody)
+            for h in s.handlers:
+                h.body = _flatten(h.body)
+            out.append(s)
+        else:
+            out.append(s)
+    return out
+
+
+def _call_name(c):
+    try:
+        return ast.unparse(c.func)
+    except Exception:
+        return "?"
+
+
+def _only_pure_calls(e):
+    return all(_call_name(x) in PURE_CALLS and not x.keywords for x in ast.walk(e) if isinstance(x, ast.Call)) \
+        and not _has_nested_scope([e])
+
+
+def _trivial(e):
+    return all(isinstance(x, (ast.Name, ast.Constant, ast.Attribute, ast.Load)) for x in ast.walk(e))
+
+
+def _find_use(e, name):
+    """-> (path found, expressions evaluated before the use) for the single unconditional read of `name` in e, else None"""
+    if isinstance(e, ast.Name):
+        return [] if (e.id == name and isinstance(e.ctx, ast.Load)) else None
+    if isinstance(e, ast.BinOp):
+        kids = [e.left, e.right]
+    elif isinstance(e, ast.UnaryOp):
+        kids = [e.operand]
+    elif isinstance(e, ast.BoolOp):
+        kids = e.values[:1]
+    elif isinstance(e, ast.Compare):
+        kids = [e.left, e.comparators[0]]
+    elif isinstance(e, ast.Call):
+        if e.keywords or any(isinstance(a, ast.Starred) for a in e.args):
+            return None
+        kids = [e.func] + list(e.args)
+    elif isinstance(e, ast.Attribute):
+        kids = [e.value]
+    elif isinstance(e, ast.Subscript):
+        kids = [e.value, e.slice]
+    elif isinstance(e, (ast.Tuple, ast.List)) and isinstance(e.ctx, ast.Load):
+        kids = list(e.elts)
+    else:
+        return None
+    for i, k in enumerate(kids):
+        r = _find_use(k, name)
+        if r is not None:
+            return kids[:i] + r
+    return None
+
+
+def _head(s):
+    if isinstance(s, (ast.Return, ast.Expr)) or (isinstance(s, ast.Assign) and all(isinstance(t, ast.Name) for t in s.targets)):
+        return "value"
+    if isinstance(s, ast.If):
+        return "test"
+    return None
+
+
+def _count(nodes, name, ctx):
+    return sum(1 for n in nodes for x in ast.walk(n) if isinstance(x, ast.Name) and x.id == name and isinstance(x.ctx, ctx))
+
+
+def _inline_temps(body, params):
+    """step 6, to a fixpoint"""
+    def blocks(stmts):
+        yield stmts
+        for s in stmts:
+            for f in ("body", "orelse", "finalbody"):
+                sub = getattr(s, f, None)
+                if isinstance(sub, list) and sub and isinstance(sub[0], ast.stmt):
+                    yield from blocks(sub)
+            for h in getattr(s, "handlers", []) or []:
+                yield from blocks(h.body)
+
+    changed = True
+    while changed:
+        changed = False
+        for blk in blocks(body):
+            for i in range(len(blk) - 1):
+                s, nxt = blk[i], blk[i + 1]
+                if not (isinstance(s, ast.Assign) and len(s.targets) == 1 and isinstance(s.targets[0], ast.Name)):
+                    continue
+                t = s.targets[0].id
+                if t in params or _count(body, t, ast.Store) != 1 or _count(body, t, ast.Load) != 1 or _count(body, t, ast.Del):
+                    continue
+                field = _head(nxt)
+                if field is None or getattr(nxt, field) is None:
+                    continue
+                before = _find_use(getattr(nxt, field), t)
+                if before is None:
+                    continue
+                if not all(_trivial(x) for x in before) and not (_only_pure_calls(s.value) and all(_only_pure_calls(x) for x in before)):
+                    continue
+                setattr(nxt, field, _Subst({t: s.value}).visit(getattr(nxt, field)))
+                del blk[i]
+                changed = True
+                break
+            if changed:
+                break
+    return body
+
+
+class _Rename(ast.NodeTransformer):
+    def __init__(self, params):
+        self.params, self.names = set(params), {}
+
+    def visit_Name(self, node):
+        if isinstance(node.ctx, ast.Store) and node.id not in self.params and node.id not in self.names:
+            self.names[node.id] = f"_l{len(self.names)}"
+        return node
+
+
+def _rename_locals(body, params):
+    r = _Rename(params)
+    for s in body:
+        r.visit(s)
+    taken = {x.id for s in body for x in ast.walk(s) if isinstance(x, ast.Name)}
+    if any(v in taken for v in r.names.values()):
+        return body
+
+    class Apply(ast.NodeTransformer):
+        def visit_Name(self, node):
+            return ast.Name(id=r.names.get(node.id, node.id), ctx=node.ctx)
+    return [Apply().visit(s) for s in body]
+
+
+def norm(stmts, params=(), cls=None, mod=None):
+    body = copy.deepcopy(list(stmts))
+    if body and isinstance(body[0], ast.Expr) and isinstance(body[0].value, ast.Constant) and isinstance(body[0].value.value, str):
+        body = body[1:]
+    if _has_nested_scope(body):
+        return body                      # not understood: left as written
+    if cls is not None:
+        body = [_InlineHelpers(cls, mod).visit(s) for s in body]
+    body = [x for x in (_Cleanup().visit(s) for s in body) if x is not None]
+    body = _flatten(body)
+    body = _inline_temps(body, set(params))
+    body = _flatten(body)
+    body = _rename_locals(body, set(params))
+    return [ast.fix_missing_locations(s) for s in body]
+
+
+CTX = {"mod": None}     # the module being translated (set by gen_views): lets norm_fn find the class of a method
+
+
+def norm_fn(fn, cls=None, mod=None):
+    mod = mod or CTX["mod"]
+    if cls is None and mod is not None:
+        owners = [c for c in ast.walk(mod) if isinstance(c, ast.ClassDef) and any(n is fn for n in c.body)]
+        cls = owners[0] if len(owners) == 1 else None
+    return norm(fn.body, params_of(fn), cls, mod)
+
+
 def dump(nodes):
     if isinstance(nodes, ast.AST):
         nodes = [nodes]
@@ -83,8 +409,19 @@ def tmpl_expr(src):
     return ast.parse(src, mode="eval").body
 
 
-def same_stmts(nodes, src):
-    return dump(nodes) == dump(tmpl_stmts(src))
+def same_stmts(nodes, src, params=()):
+    """nodes: an already normalised body (norm_fn); the template is normalised the same way"""
+    return dump(nodes) == dump(norm(tmpl_stmts(src), params))
+
+
+def params_of(fn):
+    a = fn.args
+    return [x.arg for x in a.posonlyargs + a.args + a.kwonlyargs] + [x.arg for x in (a.vararg, a.kwarg) if x]
+
+
+def matches(fn, src, cls=None, mod=None):
+    """the normal form of the body of fn is the normal form of the template"""
+    return same_stmts(norm_fn(fn, cls, mod), src, params_of(fn))
 
 
 def same_expr(node, src):
@@ -135,7 +472,7 @@ def av_route(fn):
     """`return np.array(self) <op> other`"""
     if argnames(fn) != (["self", "other"], None, None):
         raise Untranslatable(f"{fn.name}: parameters {argnames(fn)}")
-    b = body_of(fn)
+    b = norm_fn(fn)
     if len(b) != 1 or not isinstance(b[0], ast.Return) or b[0].value is None:
         raise Untranslatable(f"{fn.name}: not a single return")
     e = b[0].value
@@ -154,7 +491,7 @@ def sfv_route(fn):
     """`return self._do_comparison(other, operator.<op>)`"""
     if argnames(fn) != (["self", "other"], None, None):
         raise Untranslatable(f"{fn.name}: parameters")
-    b = body_of(fn)
+    b = norm_fn(fn)
     if len(b) == 1 and isinstance(b[0], ast.Return) and isinstance(b[0].value, ast.Call):
         c = b[0].value
         if (same_expr(c.func, "self._do_comparison") and len(c.args) == 2 and not c.keywords and same_expr(c.args[0], "other")
@@ -168,7 +505,7 @@ def sfv_route(fn):
 
 def sav_route(fn):
     """`return self._do_comparison(other, "__<op>__")`"""
-    b = body_of(fn)
+    b = norm_fn(fn)
     if argnames(fn) == (["self", "other"], None, None) and len(b) == 1 and isinstance(b[0], ast.Return) and isinstance(b[0].value, ast.Call):
         c = b[0].value
         if (same_expr(c.func, "self._do_comparison") and len(c.args) == 2 and not c.keywords and same_expr(c.args[0], "other")
@@ -205,7 +542,7 @@ def reduce_call(e):
 def red_single(fn):
     if argnames(fn) != (["self"], "args", "kwargs"):
         raise Untranslatable(f"{fn.name}: parameters")
-    b = body_of(fn)
+    b = norm_fn(fn)
     if len(b) == 1 and isinstance(b[0], ast.Return):
         return reduce_call(b[0].value)
     return None
@@ -215,6 +552,7 @@ def gen_views(repo):
     o = py2v.Out(f"{SRC} classes ArrayView, SubFieldView, ScaledArrayView (structure read from the AST)")
     o.text += PRELUDE
     mod = py2v.parse(repo, SRC)
+    CTX["mod"] = mod
     av = py2v.find_class(mod, "ArrayView")
     sfv = py2v.find_class(mod, "SubFieldView")
     sav = py2v.find_class(mod, "ScaledArrayView")
@@ -238,17 +576,17 @@ def gen_views(repo):
 
     def av_protocols():
         fn = need(av, "__array_ufunc__")
-        if argnames(fn) != (["self", "ufunc", "method"], "inputs", "kwargs") or not same_stmts(body_of(fn), (
+        if argnames(fn) != (["self", "ufunc", "method"], "inputs", "kwargs") or not matches(fn, (
                 "inpts = _convert_array_views_to_array(self.__class__, inputs)\n"
                 "return getattr(ufunc, method)(*inpts, **kwargs)\n")):
             raise Untranslatable("ArrayView.__array_ufunc__ shape")
         fn = need(av, "__array_function__")
-        if argnames(fn) != (["self", "func", "types", "args", "kwargs"], None, None) or not same_stmts(body_of(fn), (
+        if argnames(fn) != (["self", "func", "types", "args", "kwargs"], None, None) or not matches(fn, (
                 "argslist = _convert_array_views_to_array(self.__class__, args)\n"
                 "return func(*argslist, **kwargs)\n")):
             raise Untranslatable("ArrayView.__array_function__ shape")
         conv = py2v.find_func(mod, "_convert_array_views_to_array")
-        if argnames(conv) != (["view_class", "some_args"], None, None) or not same_stmts(body_of(conv), (
+        if argnames(conv) != (["view_class", "some_args"], None, None) or not matches(conv, (
                 "converted_args = []\n"
                 "for arg in some_args:\n"
                 "    if isinstance(arg, (list, tuple)):\n"
@@ -307,7 +645,7 @@ def gen_views(repo):
                 raise Untranslatable(f"_do_comparison: right operand {ast.unparse(b)}")
             return f"({lhs}, {rhs})"
 
-        b = body_of(fn)
+        b = norm_fn(fn)
         if len(b) == 2 and isinstance(b[0], ast.If) and not b[0].orelse and len(b[0].body) == 1:
             if not same_expr(b[0].test, "isinstance(value, (int, np.integer)) and not isinstance(value, (bool, np.bool_))"):
                 raise Untranslatable(f"_do_comparison: guard {ast.unparse(b[0].test)}")
@@ -323,23 +661,23 @@ def gen_views(repo):
 
     def sfv_values():
         fn = need(sfv, "masked_array")
-        if argnames(fn) != (["self"], None, None) or not same_stmts(body_of(fn), "return (self.array & self.bit_mask) >> self.lsb\n"):
+        if argnames(fn) != (["self"], None, None) or not matches(fn, "return (self.array & self.bit_mask) >> self.lsb\n"):
             raise Untranslatable("SubFieldView.masked_array shape")
         fn = need(sfv, "__array__")
-        if not same_stmts(body_of(fn), ("ret = self.masked_array()\n"
+        if not matches(fn, ("ret = self.masked_array()\n"
                                         "if not isinstance(ret, np.ndarray):\n"
                                         "    ret = np.array(ret)\n"
                                         "return ret\n")):
             raise Untranslatable("SubFieldView.__array__ shape")
         init = need(sfv, "__init__")
-        if argnames(init) != (["self", "array", "bit_mask"], None, None) or not same_stmts(body_of(init), (
+        if argnames(init) != (["self", "array", "bit_mask"], None, None) or not matches(init, (
                 "super().__init__(array)\n"
                 "self.bit_mask = self.array.dtype.type(bit_mask)\n"
                 "self.lsb = packing.least_significant_bit_set(bit_mask)\n"
                 "self.max_value_allowed = int(self.bit_mask >> self.lsb)\n")):
             raise Untranslatable("SubFieldView.__init__ shape")
         gi = need(sfv, "__getitem__")
-        if argnames(gi) != (["self", "item"], None, None) or not same_stmts(body_of(gi), (
+        if argnames(gi) != (["self", "item"], None, None) or not matches(gi, (
                 "sliced = SubFieldView(self.array[item], int(self.bit_mask))\n"
                 "if isinstance(item, int):\n"
                 "    return sliced.masked_array()\n"
@@ -368,20 +706,20 @@ def gen_views(repo):
 
     def sav_scale():
         fn = need(sav, "_apply_scale")
-        if argnames(fn) != (["self", "value"], None, None) or not same_stmts(body_of(fn), "return (value * self.scale) + self.offset\n"):
+        if argnames(fn) != (["self", "value"], None, None) or not matches(fn, "return (value * self.scale) + self.offset\n"):
             raise Untranslatable("_apply_scale shape")
         fn = need(sav, "_remove_scale")
-        if argnames(fn) != (["self", "value"], None, None) or not same_stmts(body_of(fn), "return np.round((value - self.offset) / self.scale)\n"):
+        if argnames(fn) != (["self", "value"], None, None) or not matches(fn, "return np.round((value - self.offset) / self.scale)\n"):
             raise Untranslatable("_remove_scale shape")
         fn = need(sav, "_is_multi_element")
-        if not same_stmts(body_of(fn), "return self.array.ndim > 1\n"):
+        if not matches(fn, "return self.array.ndim > 1\n"):
             raise Untranslatable("_is_multi_element shape")
-        if not same_stmts(body_of(need(sav, "scaled_array")), "return self._apply_scale(self.array)\n"):
+        if not matches(need(sav, "scaled_array"), "return self._apply_scale(self.array)\n"):
             raise Untranslatable("scaled_array shape")
-        if not same_stmts(body_of(need(sav, "__array__")), "return self.scaled_array()\n"):
+        if not matches(need(sav, "__array__"), "return self.scaled_array()\n"):
             raise Untranslatable("ScaledArrayView.__array__ shape")
         init = need(sav, "__init__")
-        if argnames(init) != (["self", "array", "scale", "offset"], None, None) or not same_stmts(body_of(init), (
+        if argnames(init) != (["self", "array", "scale", "offset"], None, None) or not matches(init, (
                 "super().__init__(array)\nself.scale = scale\nself.offset = offset\n")):
             raise Untranslatable("ScaledArrayView.__init__ shape")
         return ("Definition sav_apply_scale : scale_formula := ScaleMulAdd.\n"
@@ -399,7 +737,7 @@ def gen_views(repo):
             if r is not None:
                 routes = (r, r, r)
             else:
-                b = body_of(fn)
+                b = norm_fn(fn)
                 if not (argnames(fn) == (["self"], "args", "kwargs") and len(b) == 2 and isinstance(b[0], ast.If) and not b[0].orelse
                         and len(b[0].body) == 1 and isinstance(b[0].body[0], ast.Return) and isinstance(b[1], ast.Return)):
                     raise Untranslatable(f"ScaledArrayView.{m} shape")
@@ -443,9 +781,9 @@ def gen_views(repo):
                      "    return self.__class__(sliced_array, self.scale, self.offset)\n")
         if argnames(fn) != (["self", "item"], None, None):
             raise Untranslatable("ScaledArrayView.__getitem__ parameters")
-        if same_stmts(body_of(fn), new_shape):
+        if matches(fn, new_shape):
             values = "GiValuesPerPosition"
-        elif same_stmts(body_of(fn), old_shape):
+        elif matches(fn, old_shape):
             values = "GiValuesScalarPairOnly"
         else:
             raise Untranslatable("ScaledArrayView.__getitem__ shape")
